@@ -280,6 +280,9 @@ def oracle(rc, st):
             if json.loads(o) != want:
                 raise Violation(("filter_output", {"expr": "in_place" if expr != "J" else "identity"}),
                                 "EliotFilter(%r) wrote %r, the expression's value is %r" % (expr, o[:200], want))
+    if len(tlines) >= 2 and rc.cfg.get("threads_format"):
+        filter_concurrently(rc, [x for x in tlines if isinstance(json.loads(x), dict) and
+                                 isinstance(json.loads(x).get("task_level"), list)])
     # a line the filter cannot decode stops it (as before), but everything it processed up to there has
     # been written: the output is the encoding of every line processed
     if tlines:
@@ -382,6 +385,54 @@ def format_concurrently(rc, PP, msgs):
         if PP.pretty_format(m) != want_p[i] or PP.compact_format(m) != want_c[i]:
             raise Violation(("concurrent_format", {"fn": "afterwards"}),
                             "after concurrent use message %d is formatted differently" % i)
+
+
+def filter_concurrently(rc, tlines):
+    """Two EliotFilter objects, each on its own input and output, run by two threads at once (an in-process log
+    processor with one filter per file): each writes the values of ITS lines."""
+    from esim.sched import Sched, SimAbort
+    from eliot.filter import EliotFilter
+    a_lines = tlines[0::2]
+    b_lines = tlines[1::2]
+    if not a_lines or not b_lines:
+        return
+    s = Sched(rc.dec.stream("fmt-sched"), p_switch=0.3, gran="line", max_steps=400000, traced=["filter.py"])
+    outs = {"A": io.StringIO(), "B": io.StringIO()}
+    exprs = {"A": "J", "B": "SKIP if len(J['task_level']) % 2 else J['task_uuid']"}
+
+    def worker(name, lines):
+        def fn():
+            EliotFilter(exprs[name], lines, outs[name]).run()
+        return fn
+
+    def main():
+        acts = [s.spawn("FA", worker("A", a_lines)), s.spawn("FB", worker("B", b_lines))]
+        for t in acts:
+            s.yield_point("join")
+            s.join(t)
+    try:
+        s.run_main(main)
+    except SimAbort:
+        raise Violation("no_termination", "filter threads aborted: %s" % s.abort)
+    for a in s.actors:
+        if a.exc is not None:
+            raise Violation(("filter_abort", {"exc": type(a.exc).__name__}), "concurrent filters: %r" % (a.exc,))
+    rc.probe("filtered_concurrently")
+    want = {"A": "".join(json.dumps(json.loads(x)) + "\n" for x in a_lines)}
+    wb = []
+    for x in b_lines:
+        J = json.loads(x)
+        if not len(J["task_level"]) % 2:
+            wb.append(json.dumps(J["task_uuid"]) + "\n")
+    want["B"] = "".join(wb)
+    for name in ("A", "B"):
+        got = [json.loads(x) for x in outs[name].getvalue().split("\n") if x]
+        exp = [json.loads(x) for x in want[name].split("\n") if x]
+        if got != exp:
+            raise Violation(("filter_output", {"expr": "concurrent"}),
+                            "two filters run at once: filter %s wrote %d values, %d expected; first difference: %r" % (
+                                name, len(got), len(exp),
+                                next(((g, w_) for g, w_ in zip(got, exp) if g != w_), None)))
 
 
 def _progress(done, want):
